@@ -211,7 +211,7 @@ void sim::engine_damage(RunCtx& cx) {
     {
         mon.begin("reader");
         simalloc::state().fail_at = fail_at;
-        std::string outcome = "clean";
+        const char* outcome = "clean";   // (no allocation in the handlers: the allocation fault may still be armed)
         try {
             SimStreamBuf sb(f, f.size(), delivery == 0 ? 0 : delivery == 1 ? 7 : 4096, mix64(cx.seed, 1), r.chance(1, 10) ? (long)r.below(f.size() + 1) : -1);
             std::istream is(&sb);
@@ -223,14 +223,15 @@ void sim::engine_damage(RunCtx& cx) {
                 if (eof) break;
                 render_everything(b);
             }
-        } catch (CDNS::CdnsDecoderEnd&) { outcome = "CdnsDecoderEnd"; }
-        catch (CDNS::CdnsDecoderException&) { outcome = "CdnsDecoderException"; }
-        catch (std::bad_alloc&) { outcome = "bad_alloc"; }
-        catch (std::exception&) { outcome = "std::exception"; }
-        catch (...) { outcome = "non-std"; cx.violation("C03", "C03/I26/non-std-exception/reader", "something not derived from std::exception was thrown"); }
+        } catch (CDNS::CdnsDecoderEnd&) { simalloc::state().fail_at = 0; outcome = "CdnsDecoderEnd"; }
+        catch (CDNS::CdnsDecoderException&) { simalloc::state().fail_at = 0; outcome = "CdnsDecoderException"; }
+        catch (std::bad_alloc&) { simalloc::state().fail_at = 0; outcome = "bad_alloc"; }
+        catch (std::exception&) { simalloc::state().fail_at = 0; outcome = "std::exception"; }
+        catch (...) { simalloc::state().fail_at = 0; outcome = "non-std"; cx.violation("C03", "C03/I26/non-std-exception/reader", "something not derived from std::exception was thrown"); }
+        simalloc::state().fail_at = 0;
         mon.end(fail_at);
-        outcomes.insert("A:" + outcome);
-        cx.ctr->add("outcome.reader." + outcome);
+        outcomes.insert(std::string("A:") + outcome);
+        cx.ctr->add(std::string("outcome.reader.") + outcome);
     }
     // ---- consumer B: raw decoder calls in seeded order ---------------------------------------------------------------------
     {
